@@ -101,6 +101,10 @@ func (g *G) simpleStmt(depth int) *Node {
 				in := g.simpleVarPlain()
 				vs = append(vs, &Node{Kind: "ExprVariable", Kids: []Kid{one("Name", in)}, Parts: parts(t("$"), in), Prec: 100})
 			case 1:
+				if g.O.Formatter {
+					vs = append(vs, g.simpleVarPlain())
+					continue
+				}
 				e := g.exprTop(depth + 1)
 				vs = append(vs, &Node{Kind: "ExprVariable", Kids: []Kid{one("Name", e)}, Parts: parts(t("$"), t("{"), e, t("}")), Prec: 100})
 			default:
@@ -120,7 +124,7 @@ func (g *G) simpleStmt(depth int) *Node {
 			}
 		}
 		return &Node{Kind: "StmtStatic", Kids: []Kid{list("Vars", vs)}, Parts: parts(g.kw("static"), sepList(vs, ","), g.semi())}
-	case k == 13 && g.inHeredoc == 0:
+	case k == 13 && g.inHeredoc == 0 && !g.O.Formatter:
 		return g.heredocStmt(depth)
 	case k == 14:
 		return &Node{Kind: "StmtNop", Parts: parts(t(";"))}
@@ -802,6 +806,9 @@ func (g *G) Program() *Node {
 	ps = append(ps, tn(open), tg("", GapNeedWS))
 	nStmts := g.R.Range(1, g.O.MaxStmts)
 	nsMode := g.R.Intn(6) // 0: semicolon namespaces, 1: braced namespaces, else none
+	if g.O.Formatter {
+		nsMode = 5
+	}
 	for i := 0; i < nStmts; i++ {
 		var s *Node
 		switch {
